@@ -7,7 +7,7 @@ import json, os, re, subprocess, sys, shutil, concurrent.futures as cf
 ROOT = os.path.dirname(os.path.dirname(os.path.abspath(__file__)))
 SCR = os.environ.get("SEED_SCRATCH", "/tmp/seedrun")
 # checks (besides the seed's own property) that exercise the same mechanism
-EXTRA = {"C13-m1": [], "C06-m2": ["C07"], "C07-m2": ["C09"], "C05-m2": ["C17"], "C04-m1": ["C06"], "C09-m2": ["C03"],
+EXTRA = {"C13-m1": [], "C02-m3": ["C08", "C03"], "C08-m3": ["C20", "C02"], "C03-m3": ["C02", "C16", "C05"], "C19-m3": ["C09"], "C06-m2": ["C07"], "C07-m2": ["C09"], "C05-m2": ["C17"], "C04-m1": ["C06"], "C09-m2": ["C03"],
          "C03-m1": ["C06"], "C03-m2": ["C07", "C04", "C05"], "C01-m1": ["C16"], "C02-m1": ["C16"], "C08-m1": ["C02"], "C08-m2": ["C03"]}
 
 
